@@ -3,7 +3,9 @@
 // family of honest and forked Merkle trees; after every step the response class, the body and
 // the held STH are recorded and compared (a) with the Coq model (check in WitnessCase.v) and
 // (b) with the property's own sentences (direct oracle, written against the observed history
-// and the known leaves only).  Also: transparency-dev/merkle's VerifyConsistency against the
+// and the known leaves only).  Restart histories (restart.go) cut a history into epochs, each begun
+// by witness.New over the database the previous one left, under the same or another set of
+// configured logs.  Also: transparency-dev/merkle's VerifyConsistency against the
 // recursive RFC 6962 verifier of Merkle.v, and the library's tree against mth/cproof/path.
 package main
 
@@ -44,6 +46,7 @@ func main() {
 	h.forgedProofCases(lib.Count(3, 60))
 	h.wrongCountCases(lib.Count(2, 80))
 	h.spellingCases()
+	h.restartCases(lib.Count(30, 200))
 	nSeq := lib.Count(140, 1500)
 	for i := 0; i < nSeq && atomic.LoadInt32(&hangs) < 3; i++ {
 		h.sequentialCase(i)
